@@ -1,6 +1,6 @@
 (* C15 — malformed input is refused with an error, never with a panic.  Property theorems only (decision skeleton of main.rs). *)
-From Coq Require Import List Arith Bool.
-Require Import Cli.
+From Coq Require Import List Arith Bool ZArith.
+Require Import Consts Cli Json SimpleRead.
 Import ListNotations.
 
 (* for EVERY combination of stage results: if the run is not well formed (arguments rejected, both room options, rooms unreadable or
@@ -12,6 +12,34 @@ Proof. exact malformed_refused. Qed.
 Theorem C15_wellformed : forall s, well_formed_run s = true -> In (exit_code s) [0; 1; 74].
 Proof. exact wellformed_exit. Qed.
 
-Check C15_refused. Check C15_wellformed.
+(* the simple-format reader and the consistency check are total functions of the JSON document (SimpleRead: serde's derived
+   deserializers for Participant / Choice / Course from objects or arrays, then io::check_data_consistency; compared exactly with the
+   implementation on generated and corrupted documents).  A document the model does not accept -- unparsable as an instance,
+   references out of range, minimum above maximum, a penalty that does not fit the score arithmetic, a participant instructing
+   twice, or no participant -- is refused: *)
+Theorem C15_simple_refused : forall data s,
+  input_parse_ok s = (match simple_read data with ROk _ => true | RErr _ => false end) ->
+  (forall ps cs, simple_read data = ROk (ps, cs) ->
+     consistent s = consistentb ps cs /\ has_participants s = negb (match ps with [] => true | _ => false end)) ->
+  simple_accepts data = false -> In (exit_code s) [2; 64; 65; 66] /\ reaches_output s = false.
+Proof.
+  intros data s Hp Hc Ha. apply malformed_refused. unfold well_formed_run. unfold simple_accepts in Ha.
+  destruct (simple_read data) as [[ps cs]|code] eqn:E.
+  - destruct (Hc ps cs eq_refl) as [H1 H2]. rewrite H1, H2.
+    destruct (consistentb ps cs); simpl in Ha; [rewrite Ha|]; rewrite ?andb_false_r; reflexivity.
+  - rewrite Hp. rewrite ?andb_false_r. reflexivity.
+Qed.
+(* and whatever is accepted has every cross reference in range, minimum <= maximum and penalties below WEIGHT_OFFSET (the index and
+   arithmetic clauses of the solver's validity predicate) *)
+Theorem C15_simple_accepted : forall data ps cs, simple_read data = ROk (ps, cs) -> consistentb ps cs = true ->
+  (forall p ch, In p ps -> In ch (sp_choices p) -> (0 <= sc_course ch < Z.of_nat (List.length cs))%Z /\ (0 <= sc_pen ch < WEIGHT_OFFSET)%Z) /\
+  (forall c i, In c cs -> In i (so_instr c) -> (0 <= i < Z.of_nat (List.length ps))%Z) /\
+  (forall c, In c cs -> (0 <= so_min c <= so_max c)%Z) /\
+  NoDup (flat_map so_instr cs).           (* nobody instructs two courses or one course twice *)
+Proof. exact accepted_is_consistent. Qed.
+
+Check C15_refused. Check C15_wellformed. Check C15_simple_refused. Check C15_simple_accepted.
 Print Assumptions C15_refused.
 Print Assumptions C15_wellformed.
+Print Assumptions C15_simple_refused.
+Print Assumptions C15_simple_accepted.
